@@ -610,7 +610,12 @@ CLAIMED['C08'] = dict(
          "goes stale. Oracle-only: the save/load leg (yml/json/pkl round trip of the trimmed model; also C03), "
          "trim before vs after the first evaluate. Correspondence per quick run: ~1400 trims (cells kept, formulas "
          "removed, all cell values after the trim, outputs of 3 assignment rounds incl. ~770 writes to buried "
-         "formula cells) model = implementation, and the untrimmed machine = untrimmed compiler on the same rounds.",
+         "formula cells) model = implementation, and the untrimmed machine = untrimmed compiler on the same rounds. "
+         "Oracle-only, outside the model: 40 sheets per quick run whose outputs read unbounded ranges (B:B, A:B, "
+         "2:3) that are independent of the inputs or contain one — untrimmed vs trimmed vs trimmed+saved+loaded "
+         "(yml, json and pkl) over 3 assignment rounds, and untrimmed vs a fresh compile with the values written so "
+         "far (repairs 347fec5, 17855a0; known finding C08-unbounded-early-trim-direct: a trim before the first "
+         "evaluation leaves S!B:B without its bounded range, evaluating the trimmed model raises).",
     design_ref="DESIGN.md 5 C08",
 )
 
@@ -696,7 +701,16 @@ CLAIMED['C03'] = dict(
          "history on the original; history on the loaded model; cache snapshot after from_file and after every "
          "post-load operation; settings of the loaded model; the document of a save of the loaded model; key order "
          "of a second save with a user dict; keys of the loaded extra_data — 0 divergences on seeds 0-5; a mutation "
-         "of the sort key in the harness is detected.",
+         "of the sort key in the harness is detected. SETTINGS (source hash): 18 models per quick run compiled from "
+         "an .xlsx file that is left alone / rewritten / deleted between compile and save and again (or restored) "
+         "between load and re-save: _excel_file_md5_digest, hash_matches and the excel_hash of the saved documents "
+         "must be the hash recorded at compile time (oracle + the model's settings/documents). ORACLE-ONLY, outside "
+         "the float-exact domain on purpose: 36 + 24 workbooks x yml/json/pkl of constants such as 0.1, 2.5, 1e-7, "
+         "1e22, 1/3 under SUM/AVERAGE/COUNT/MAX/MIN, histories of set_value/evaluate, original vs loaded compared by "
+         "repr AND exact class of every returned value and every cell value (repair 0e70589: ruamel ScalarFloat "
+         "constants made SUM differ in the last bit); the 24 write one or two constants as numpy.float64 before the "
+         "save (known finding C03-numpy-float-constant: saved as floats, the loaded model sums plain floats and "
+         "rounds differently; any other difference there is reported).",
     design_ref="DESIGN.md 5 C03",
 )
 
